@@ -38,7 +38,7 @@ class C16(Prop):
     title = "Typed wiring: no type/integrity-violating flow; modules run once, in order"
     extractors = ["E6"]
     fixed_prefix = 0
-    quick_budget = 3000
+    quick_budget = 2200
     thorough_budget = 60000
     all_branches = (["mod:ok", "mod:moduleExists", "wire:ok", "wire:unknownOutputPort", "wire:unknownInputPort",
                      "wire:typeMismatch", "wire:integrityViolation", "rawwire", "handler:ret", "handler:retnone",
